@@ -107,6 +107,7 @@ pub fn run(tier: Tier) -> i32 {
                 }
             };
             rep.cmp(4);
+            rep.outcome(hash_f64s(&t.1.iter().flatten().cloned().collect::<Vec<f64>>()));
             if t.1.len() != t0.1.len() {
                 rep.violation("durations", format!("{} frames with h={} vs {} without", t.1.len(), h, t0.1.len()), rp);
                 continue;
